@@ -95,10 +95,17 @@ def serCallsPairs : List (LV × LV) → List (Call × Call)
   | (k, v) :: rest => (serCalls k, serCalls v) :: serCallsPairs rest
 end
 
+/-- not a sequence-like / map-like / dynamic object -/
+def isScalarV : V → Bool
+  | .seq _ _ => false
+  | .map _ => false
+  | .obj _ => false
+  | _ => true
+
 mutual
-/-- every object in the value answers honestly -/
+/-- every object in the value answers honestly (and leaves are scalars) -/
 def Honest : LV → Prop
-  | .leaf _ => True
+  | .leaf v => isScalarV v = true
   | .list _ xs => HonestList xs
   | .lazy en xs => enHonest en xs.length ∧ HonestList xs
   | .vmap kvs => HonestPairs kvs
@@ -142,6 +149,37 @@ def toVList (btree : Bool) : List LV → List V
 def toVPairs (btree : Bool) : List (LV × LV) → List (V × V)
   | [] => []
   | (k, v) :: rest => (toV btree k, toV btree v) :: toVPairs btree rest
+end
+
+end MJ.ValueSer
+
+/-! ## the `INTERNAL_SERIALIZATION` flag (`impl From<Serde<T>> for Value`, `InternalSerializationGuard`)
+
+A conversion saves the flag, sets it, serialises (which may run nested conversions and may panic
+or fail), and the guard's `drop` — which also runs while unwinding — clears the flag only if this
+conversion was the one that set it. -/
+namespace MJ.ValueSer
+
+/-- one `Value::from(Serde(x))`: the conversions nested inside `x.serialize(..)`, and whether the
+serialisation then panics -/
+inductive Conv where
+  | conv (inner : List Conv) (panics : Bool)
+
+mutual
+/-- `(flag afterwards, still unwinding)` -/
+def runConv : Conv → Bool → Bool × Bool
+  | .conv inner panics, flag =>
+    let resetOnDrop := !flag            -- `let old = flag.replace(true); reset_on_drop: !old`
+    let r := runConvs inner true
+    let unwinding := r.2 || panics
+    -- Drop for InternalSerializationGuard (runs on the normal and on the unwinding path)
+    (if resetOnDrop then false else r.1, unwinding)
+/-- consecutive conversions; a panic skips the rest -/
+def runConvs : List Conv → Bool → Bool × Bool
+  | [], flag => (flag, false)
+  | c :: cs, flag =>
+    let r := runConv c flag
+    if r.2 then r else runConvs cs r.1
 end
 
 end MJ.ValueSer
